@@ -5,6 +5,7 @@
 From Coq Require Import List Bool.
 From Geo Require Import Model.Wedge Model.Relations Model.Nest Model.RelWalk.
 From Geo Require Import Proofs.C07_Wedge Proofs.C07_Walk Proofs.C07_Relations Proofs.C07_Polygon Proofs.C07_Nest.
+From Geo Require Proofs.C02_Float Proofs.Link_C02_C03 Model.Contain Proofs.Link_C07.
 Import ListNotations.
 
 (** wedge tests at a shared vertex ------------------------------------------------------ *)
@@ -133,6 +134,105 @@ Print Assumptions loop_contains_iff_complements_reversed.
 Print Assumptions loop_contains_only_if_subset.
 Print Assumptions loop_disjoint_only_if_no_common_point.
 Print Assumptions single_loop_polygon_eq_loop.
+
+(** the same theorems for the REAL predicates (Proofs/Link_C07.v) ------------------------------
+    point := canonical unit points (IsUnit, no -0 coordinate), peq := Go ==, ordered_ccw and
+    crossing_sign := the C03 crosser over RobustSign, contains_point := C04's brute-force
+    containment. The interface laws peq_spec, cross_swap, cross_rev, occw_aab, occw_aba, cp_invert,
+    cp_full, cp_empty are discharged from C02/C03/C04; what remains: H_STABLE_DET, H_TANGENT and
+    this layer's H_JORDAN_* / H_SUBREGION_* / H_LATBOUND_* premises. *)
+Section RealPredicates.
+  Import Link_C07.
+  Hypothesis HS : C02_Float.H_STABLE_DET.
+  Hypothesis HT : Link_C02_C03.H_TANGENT.
+  Variable refdir : cpoint -> cpoint.
+  Variables origin empty_pt full_pt zero_pt : cpoint.
+  Variables sub_contains bound_intersects bound_union_full : loop cpoint -> loop cpoint -> bool.
+  Notation cp := (c_cp refdir origin zero_pt).
+  Notation Contains := (loop_contains cpoint c_peq c_occw c_cross cp sub_contains bound_union_full).
+  Notation Intersects := (loop_intersects cpoint c_peq c_occw c_cross cp sub_contains bound_intersects bound_union_full).
+  Notation Inv := (invert cpoint empty_pt full_pt).
+  Hypothesis H_sub : H_SUBREGION_sound cpoint c_peq c_occw c_cross cp sub_contains.
+  Hypothesis H_v0 : H_SUBREGION_v0 cpoint c_peq c_cross cp sub_contains bound_union_full.
+  Hypothesis H_bnd : H_LATBOUND_sound cpoint c_peq c_occw c_cross cp bound_intersects.
+  Hypothesis H_bnd_empty : H_LATBOUND_empty cpoint bound_intersects.
+
+  Theorem real_point_equality_is_go_equality : forall a b : cpoint, c_peq a b = true <-> a = b.
+  Proof. exact c_peq_spec. Qed.
+
+  Theorem real_loop_intersects_symmetric : forall A B, wf cpoint A -> wf cpoint B ->
+    Intersects A B = Intersects B A.
+  Proof. exact (real_intersects_symmetric HS HT refdir origin zero_pt sub_contains bound_intersects
+                  bound_union_full H_sub H_v0 H_bnd H_bnd_empty). Qed.
+
+  Theorem real_loop_contains_itself : forall A, valid cpoint c_cross A -> Contains A A = true.
+  Proof. exact (real_contains_itself HS HT refdir origin zero_pt sub_contains bound_intersects
+                  bound_union_full H_sub H_v0). Qed.
+
+  Theorem real_loop_intersects_itself : forall A, valid cpoint c_cross A -> is_empty cpoint A = false ->
+    Intersects A A = true.
+  Proof. exact (real_intersects_itself HS HT refdir origin zero_pt sub_contains bound_intersects
+                  bound_union_full H_sub H_v0 H_bnd H_bnd_empty). Qed.
+
+  Theorem real_loop_intersects_iff_complement_does_not_contain : forall A B,
+    H_JORDAN_side cpoint c_peq c_cross cp -> wf cpoint A -> wf cpoint B ->
+    Intersects A B = negb (Contains (Inv A) B).
+  Proof. exact (real_intersects_iff_complement_does_not_contain HS HT refdir origin empty_pt full_pt zero_pt
+                  sub_contains bound_intersects bound_union_full H_sub H_v0 H_bnd H_bnd_empty). Qed.
+
+  Theorem real_loop_contains_iff_complements_reversed : forall A B,
+    H_JORDAN_side cpoint c_peq c_cross cp -> wf cpoint A -> wf cpoint B ->
+    Contains A B = Contains (Inv B) (Inv A).
+  Proof. exact (real_contains_iff_complements_reversed HS HT refdir origin empty_pt full_pt zero_pt
+                  sub_contains bound_intersects bound_union_full H_sub H_v0). Qed.
+
+  Theorem real_loop_contains_only_if_subset : forall A B,
+    H_JORDAN_subset cpoint c_peq c_occw c_cross cp ->
+    valid cpoint c_cross A -> valid cpoint c_cross B -> Contains A B = true ->
+    forall p, cp B p = true -> cp A p = true.
+  Proof. exact (real_contains_only_if_subset HS HT refdir origin zero_pt sub_contains bound_intersects
+                  bound_union_full H_sub H_v0). Qed.
+
+  Theorem real_loop_disjoint_only_if_no_common_point : forall A B,
+    H_JORDAN_disjoint cpoint c_peq c_occw c_cross cp ->
+    valid cpoint c_cross A -> valid cpoint c_cross B -> Intersects A B = false ->
+    forall p, cp A p = true -> cp B p = true -> False.
+  Proof. exact (real_disjoint_only_if_no_common_point HS HT refdir origin zero_pt sub_contains
+                  bound_intersects bound_union_full H_sub H_v0 H_bnd H_bnd_empty). Qed.
+
+  Variable psub plng pbi : polygon cpoint -> polygon cpoint -> bool.
+  Theorem real_single_loop_polygon_eq_loop : forall a b : ploop cpoint,
+    polygon_contains cpoint c_peq c_occw c_cross cp sub_contains bound_intersects
+      bound_union_full psub plng [a] [b] = Contains (fst a) (fst b) /\
+    polygon_intersects cpoint c_peq c_occw c_cross cp sub_contains bound_intersects
+      bound_union_full pbi [a] [b] = Intersects (fst a) (fst b).
+  Proof. exact (fun a b => conj (single_loop_polygon_contains cpoint c_peq c_occw c_cross cp
+                  sub_contains bound_intersects bound_union_full psub plng a b)
+                 (single_loop_polygon_intersects cpoint c_peq c_occw c_cross cp
+                  sub_contains bound_intersects bound_union_full pbi a b)). Qed.
+
+  (** bridge to Model/Contain.v: on the loop values the constructors and Invert produce,
+      contains_point is C04's brute_contains and the two models of Loop.Invert agree *)
+  Theorem real_contains_point_is_brute_force : forall L p, coherent empty_pt full_pt L ->
+    cp L p = c_brute refdir origin zero_pt (to_contain L) p.
+  Proof. exact (cp_is_brute HS HT refdir origin empty_pt full_pt zero_pt). Qed.
+
+  Theorem real_invert_is_contain_invert : forall L, coherent empty_pt full_pt L ->
+    to_contain (Inv L) = Contain.invert cpoint empty_pt full_pt (to_contain L) /\
+    coherent empty_pt full_pt (Inv L).
+  Proof. exact (fun L H => conj (invert_corresponds empty_pt full_pt L H) (invert_coherent empty_pt full_pt L H)). Qed.
+End RealPredicates.
+Print Assumptions real_point_equality_is_go_equality.
+Print Assumptions real_loop_intersects_symmetric.
+Print Assumptions real_loop_contains_itself.
+Print Assumptions real_loop_intersects_itself.
+Print Assumptions real_loop_intersects_iff_complement_does_not_contain.
+Print Assumptions real_loop_contains_iff_complements_reversed.
+Print Assumptions real_loop_contains_only_if_subset.
+Print Assumptions real_loop_disjoint_only_if_no_common_point.
+Print Assumptions real_single_loop_polygon_eq_loop.
+Print Assumptions real_contains_point_is_brute_force.
+Print Assumptions real_invert_is_contain_invert.
 
 (** nesting discovery (PolygonFromLoops) -------------------------------------------------------
     [nesting_result ids out]: out lists every loop exactly once, with depth = number of the other
